@@ -29,4 +29,9 @@ CHECKS = {
    text='All ~1000 names of the five libraries: each name expands, pin indices/directions follow the declaration order and the implementation circuit (finite, exhaustive). Every distinct combinational '
         'implementation in a claimed family is executed once symbolically and z3 proves each output pin equal to the data-sheet function for all input combinations.',
    note='Trusted: the data-sheet table in checks/c19.py (family regex, vendor pin grouping), z3. Sequential, tristate, clock-gating, power-switch cells: pin tables only.'),
+ 'C10': dict(engine='E1-lanes', category='model_checking', design_ref='DESIGN.md §5 C10',
+   technique='before/after SMT equivalence: transformed circuits run symbolically through the real LogicSim; oracle = ref2 of the original graph resp. hierarchical evaluation of the implementation circuit',
+   text='Every transformation sequence (copy, pickle, eliminate_1to1_forks; length <= 2/3) on the corpus and every distinct library implementation of five libraries (all pins connected, each single input or '
+        'output open, fan-out variant, post-transformations), plus custom implementation shapes with all pin subsets: z3 decides function preservation for all stimuli; s_nodes name lists compared exactly.',
+   note='Trusted: ref2 + hierarchical oracle (open pin = 0), z3. Instances built with the Circuit API. Known findings: latch cells whose names lack "latch" become state elements on resolution; sized AND/NAND with trailing open pin; state cell with all outputs open is removed.'),
 }
